@@ -1,6 +1,8 @@
 import WitnessVerif.Props.C08
 import WitnessVerif.Proofs.CoreRun
 import WitnessVerif.Model.Feeder
+import WitnessVerif.Model.Omni
+import WitnessVerif.Proofs.Tlog
 /-
 C14 — the assembled omniwitness follows honest logs and stops at a fork.
 Composition, at the level of parsed checkpoints, of what the feeder asks (C13), what the witness
@@ -51,5 +53,141 @@ theorem C14_fork_stays (H : α → α → α) (e : α) (hinj : Inj H) (prev next
 theorem C14_restarts_compose (H : α → α → α) (e : α) (hinj : Inj H) (before after : List (Req α)) (s : Option (CP α)) :
     (run H s (before ++ after)).Pairwise (Ext H e) :=
   (run_pairwise_ext H e hinj (before ++ after) s).1
+
+end C14
+
+namespace C14
+open Wit
+
+theorem parse_nil (l : LogInfo) : parse l [] = none := by
+  unfold parse Cp.parseCheckpoint Note.open
+  simp [Utf8.noteCharsOK, Utf8.runes, B.splitLast, B.findNN]
+
+/-- what one accepted fault-free step leaves behind -/
+theorem step_accepted_bytes (cfg : Cfg) (s : Store) (r : Req) (l : LogInfo) (next : Cp.Checkpoint) (nn : Note.Note)
+    (hfind : cfg.find r.logID = some l) (hparse : parse l r.next = some (next, nn))
+    (hacc : (update cfg (envOf s r.logID {}) r.logID r.old r.next r.proof).err = .none) :
+    ∃ signed n', (step cfg s r).2.err = .none ∧ (step cfg s r).2.ret = some signed ∧
+      (step cfg s r).1.get r.logID = some signed ∧ parse l signed = some (next, n') ∧
+      ∀ id', id' ≠ r.logID → (step cfg s r).1.get id' = s.get id' := by
+  have herr : (step cfg s r).2.err = .none := by
+    unfold step stepF; simp only; split <;> exact hacc
+  obtain ⟨v, hret, hget⟩ := stepF_accepted cfg s r {} herr
+  obtain ⟨l', next', nn', signed, p', n', hf', hp', hset, hps, hpe⟩ :=
+    C04.C04_stored_reparses cfg (envOf s r.logID {}) r.logID r.old r.next r.proof hacc
+  rw [hfind] at hf'; cases hf'
+  rw [hparse] at hp'; cases hp'
+  obtain ⟨_, _, _, _, signed2, _, _, _, _, _, hret2, hset2⟩ := C04.C04_result cfg (envOf s r.logID {}) r.logID r.old r.next r.proof hacc
+  rw [hset] at hset2; cases hset2
+  have hv : v = signed := by
+    have : (step cfg s r).2.ret = some signed := by
+      unfold step stepF; simp only; split <;> exact hret2
+    unfold step at this; rw [hret] at this; cases this; rfl
+  subst hv
+  exact ⟨v, n', herr, hret, hget, by rw [hps, hpe], fun id' h => stepF_other_log cfg s r {} id' h⟩
+
+/-- One feed cycle of the assembled service, at byte level: the log publishes an honest checkpoint (it
+    authenticates, bears just the log's line, commits to the first `next.size` entries of the leaf list
+    `D`), the witness holds nothing for the log or an honest earlier checkpoint of non-zero size, storage
+    and signers work, and the feeder's proof source returns the RFC 6962 proof (`[]` from size 0).  Then
+    the cycle ends with success, and the witness now holds a cosigned checkpoint that parses to the
+    published size and root; other logs' slots are untouched. -/
+theorem C14_feed_cycle_bytes (cfg : Cfg) (l : LogInfo) (s : Store) (cpRaw : Bytes)
+    (next : Cp.Checkpoint) (nn : Note.Note) (sg : Note.Sig) (outs : List Note.SignerOut) (e : Bytes) (D : List Bytes)
+    (prove : Nat → Nat → Option (List Bytes))
+    (hfind : cfg.find l.id = some l)
+    (hparse : parse l cpRaw = some (next, nn)) (hs1 : nn.sigs = [sg]) (hu : nn.unverified = [])
+    (hraw : cpRaw = nn.text ++ [B.nl] ++ Note.sigLine sg.name sg.b64)
+    (hsg : cfg.signers nn.text = some outs)
+    (hval : ∀ o ∈ outs, Note.isValidName o.name = true) (hsig : ∀ o ∈ outs, o.sig ≠ [] ∧ o.hash < 2 ^ 32)
+    (hchars : ∀ o ∈ outs, Utf8.noteCharsOK o.name = true)
+    (hdiff : ∀ o ∈ outs, ¬ (l.verifier.name = o.name ∧ l.verifier.hash = o.hash))
+    (hcount : outs.length + 1 ≤ 100)
+    (hn : next.size ≤ D.length) (hnext : next.hash = M.mth cfg.H e (D.take next.size))
+    (hstate : s.get l.id = none ∨ ∃ raw prev pn, s.get l.id = some raw ∧ parse l raw = some (prev, pn) ∧
+        0 < prev.size ∧ prev.size ≤ next.size ∧ prev.hash = M.mth cfg.H e (D.take prev.size))
+    (hp0 : prove 0 next.size = some [])
+    (hp : ∀ m, 0 < m → m ≤ next.size → prove m next.size = some (M.rfcProof cfg.H e m (D.take next.size))) :
+    ∃ signed n',
+      (Omni.feedCycle cfg l s cpRaw prove).1.2 = some (.done (some signed)) ∧
+      (Omni.feedCycle cfg l s cpRaw prove).2.get l.id = some signed ∧ parse l signed = some (next, n') ∧
+      ∀ id', id' ≠ l.id → (Omni.feedCycle cfg l s cpRaw prove).2.get id' = s.get id' := by
+  have hfo : Cp.parseCheckpoint cpRaw l.origin l.verifier [] = some (next, nn) := hparse
+  rcases hstate with hnone | ⟨raw, prev, pn, hget, hpp, hpos, hle, hprev⟩
+  · -- nothing stored: first use
+    have henv : (envOf s l.id {}).prev = .notFound := by simp [envOf, prevOf, hnone]
+    have hacc := C08.C08_honest_accepted_bytes cfg (envOf s l.id {}) l.id l cpRaw next nn sg outs 0 []
+      hfind hparse hs1 hu hraw rfl rfl hsg hval hsig hchars hdiff hcount (Or.inl henv)
+    obtain ⟨signed, n', herr, hret, hst, hps, hoth⟩ :=
+      step_accepted_bytes cfg s { logID := l.id, old := 0, next := cpRaw, proof := [] } l next nn hfind hparse hacc
+    refine ⟨signed, n', ?_, ?_, hps, ?_⟩
+    · unfold Omni.feedCycle Omni.answers
+      simp only [hparse, hnone, hp0, herr, hret, if_true]
+      simp [Feeder.feedOnce, hfo, Feeder.submitLoop, Feeder.submitOp]
+    · unfold Omni.feedCycle Omni.answers
+      simp only [hparse, hnone, hp0]
+      exact hst
+    · intro id' hid
+      unfold Omni.feedCycle Omni.answers
+      simp only [hparse, hnone, hp0]
+      exact hoth id' hid
+  · have hrawne : raw.isEmpty = false := by
+      cases raw with
+      | nil => rw [parse_nil] at hpp; cases hpp
+      | cons _ _ => rfl
+    have hfr : Cp.parseCheckpoint raw l.origin l.verifier [] = some (prev, pn) := hpp
+    have henv : (envOf s l.id {}).prev = .found raw := by simp [envOf, prevOf, hget]
+    have hnotgt : ¬ prev.size > next.size := by omega
+    by_cases heq : prev.size = next.size ∧ prev.hash = next.hash
+    · -- refresh: the feeder sends no proof
+      have hproof : M.rfcProof cfg.H e prev.size (D.take next.size) = [] := by
+        have hl : (D.take next.size).length = prev.size := by rw [List.length_take]; omega
+        rw [← hl]; exact C08.C08_refresh_proof_empty cfg.H e (D.take next.size)
+      have hacc := C08.C08_honest_progress_bytes cfg (envOf s l.id {}) l.id l cpRaw next nn sg outs e D prev.size raw prev pn
+        hfind hparse hs1 hu hraw rfl rfl hsg hval hsig hchars hdiff hcount henv hpp hpos hle hn ⟨rfl, hprev⟩ hnext
+      rw [hproof] at hacc
+      obtain ⟨signed, n', herr, hret, hst, hps, hoth⟩ :=
+        step_accepted_bytes cfg s { logID := l.id, old := prev.size, next := cpRaw, proof := [] } l next nn hfind hparse hacc
+      have hsz := heq.1
+      rw [hsz] at herr hret hst hoth
+      refine ⟨signed, n', ?_, ?_, hps, ?_⟩
+      · unfold Omni.feedCycle Omni.answers
+        simp only [hparse, hget, hpp, heq, and_self, if_true, herr, hret]
+        simp [Feeder.feedOnce, hfo, Feeder.submitLoop, Feeder.submitOp, hrawne, hfr, hnotgt, heq]
+      · unfold Omni.feedCycle Omni.answers
+        simp only [hparse, hget, hpp, heq, and_self, if_true]
+        exact hst
+      · intro id' hid
+        unfold Omni.feedCycle Omni.answers
+        simp only [hparse, hget, hpp, heq, and_self, if_true]
+        exact hoth id' hid
+    · -- growth: the feeder fetches the proof between the witnessed and the published size
+      have hpr := hp prev.size hpos hle
+      have hacc := C08.C08_honest_progress_bytes cfg (envOf s l.id {}) l.id l cpRaw next nn sg outs e D prev.size raw prev pn
+        hfind hparse hs1 hu hraw rfl rfl hsg hval hsig hchars hdiff hcount henv hpp hpos hle hn ⟨rfl, hprev⟩ hnext
+      obtain ⟨signed, n', herr, hret, hst, hps, hoth⟩ :=
+        step_accepted_bytes cfg s { logID := l.id, old := prev.size, next := cpRaw, proof := M.rfcProof cfg.H e prev.size (D.take next.size) } l next nn hfind hparse hacc
+      refine ⟨signed, n', ?_, ?_, hps, ?_⟩
+      · unfold Omni.feedCycle Omni.answers
+        simp only [hparse, hget, hpp, heq, if_false, hpr, herr, hret, if_true]
+        simp [Feeder.feedOnce, hfo, Feeder.submitLoop, Feeder.submitOp, hrawne, hfr, hnotgt, heq]
+      · unfold Omni.feedCycle Omni.answers
+        simp only [hparse, hget, hpp, heq, if_false, hpr]
+        exact hst
+      · intro id' hid
+        unfold Omni.feedCycle Omni.answers
+        simp only [hparse, hget, hpp, heq, if_false, hpr]
+        exact hoth id' hid
+
+/-- instantiated for the SumDB/Pixel feeders, whose proof source is `tlog.ProveTree` over the log's leaf
+    hashes: its proofs are the RFC 6962 proofs (`C18_tlog_proof_is_rfc`), so the cycle above goes through -/
+theorem C14_tlog_prove_ok (H : Bytes → Bytes → Bytes) (e : Bytes) (D : List Bytes) (n : Nat) (hn : n ≤ D.length) :
+    Omni.tlogProve H e D 0 n = some [] ∧
+    ∀ m, 0 < m → m ≤ n → Omni.tlogProve H e D m n = some (M.rfcProof H e m (D.take n)) := by
+  refine ⟨by simp [Omni.tlogProve], ?_⟩
+  intro m hm hmn
+  unfold Omni.tlogProve
+  rw [if_neg (by omega)]
+  exact Tlog.proveTree_eq_rfc H e D n m hm hmn hn
 
 end C14
